@@ -27,7 +27,8 @@ ANCHORS = ['pycaption.dfxp.base:DFXPWriter.write', 'pycaption.dfxp.base:DFXPWrit
 REQUIRE = {'writes_DFXPWriter': 100, 'writes_SinglePositioningDFXPWriter': 50, 'writes_LegacyDFXPWriter': 50,
            'outputs_parsed': 300, 'meta_in_attribute_value': 50, 'sets_from_readers': 50,
            'inline_positioning_writes': 20, 'force_writes': 20, 'regions_defined': 100,
-           'lxml_also_checked': 50, 'unused_regions_possible': 10}
+           'lxml_also_checked': 50, 'unused_regions_possible': 10,
+           'sets_from_styled_documents': 50}
 DFXP_WRITERS = ['DFXPWriter', 'SinglePositioningDFXPWriter', 'LegacyDFXPWriter']
 NCNAME = re.compile(r'^[A-Za-z_][\w.\-]*$')
 
@@ -52,8 +53,12 @@ def cases(ctx):
         writer = DFXP_WRITERS[i % 3] if rng.random() < 0.6 else 'DFXPWriter'
         r = rng.random()
         tag = f'D{ctx.shard}.{i}'
-        if r < 0.65:
+        if r < 0.6:
             src = {'kind': 'api', 'set': capsets.rich_set(rng, tag)}
+        elif r < 0.78:
+            d = (docs.gen_dfxp_styled if rng.random() < 0.5 else docs.gen_sami_styled)(rng, tag)
+            src = {'kind': 'reader', 'format': d['format'], 'doc': d['doc'], 'reader_kwargs': {}, 'read_kwargs': {},
+                   'styled': True}
         elif r < 0.9:
             fmt = rng.choice(sorted(docs.GENERATORS))
             d = docs.generate(fmt, rng, tag, ctx, text=inline.rich_lines)
@@ -100,6 +105,8 @@ def check(case, ctx):
     before = dump.caption_set(cs)
     if case['src']['kind'] == 'reader':
         ctx.count('sets_from_readers')
+        if case['src'].get('styled'):
+            ctx.count('sets_from_styled_documents')
     ctx.count('writes_' + writer)
     if case['opts'].get('write_inline_positioning'):
         ctx.count('inline_positioning_writes')
